@@ -66,7 +66,7 @@ C04i(rec) == IF Len(rec.branches) = 1
 
 \* C12
 C12Judged(c, f) == f.kind \in {"or", "unless"} \/ (~c.lor /\ ~c.ror)
-C12Bad(c, f) == /\ f.kind # "unknown"
+C12Bad(c, f) == /\ f.kind \notin {"unknown", "inherited"}
                 /\ C12Judged(c, f)
                 /\ IF ExpectEmpty(f.kind, c.op) THEN c.nonempty > 0 ELSE c.differs > 0
 \* ---- causes: why pint's claim is wrong, in terms of the abstract case (part of the violation signature) ----
@@ -80,7 +80,8 @@ Hazards(e) ==
                                            [] e.f = "abs" -> {"abs"} [] OTHER -> {})
     [] e.k = "agg" -> Hazards(e.e) \cup (IF e.op \in {"count", "cv"} THEN {"count"} ELSE {})
     [] e.k = "bin" -> Hazards(e.l) \cup Hazards(e.r) \cup (IF IsCmp(e.op) /\ e.bool THEN {"boolcmp"} ELSE {})
-HazardOrder == <<"abs", "absent", "boolcmp", "count", "neg">>
+                                     \cup (IF e.op \in {"and", "unless"} THEN {"filter"} ELSE {})
+HazardOrder == <<"abs", "absent", "boolcmp", "count", "filter", "neg">>
 RECURSIVE JoinFrom(_, _)
 JoinFrom(S, i) == IF i > Len(HazardOrder) THEN ""
                   ELSE (IF HazardOrder[i] \in S THEN HazardOrder[i] \o "," ELSE "") \o JoinFrom(S, i + 1)
